@@ -836,6 +836,15 @@ class TypeQualifier(TypeQualifierBase, metaclass=_TypeQualifier):
     #
     #
 
+    def _check_initial_value(self, value):
+        # declarations in synthesizable contexts construct the object without
+        # a value, so the compatibility check of the normal constructor
+        # (for example no Signed -> Unsigned, no narrowing) is repeated here
+        if issubclass(type(self)._Wrapped, BitVector) and (
+            isinstance(value, TypeQualifierBase) or is_primitive(value)
+        ):
+            type(self)._Wrapped(_decay(value))
+
     @_intrinsic_replacement(__init__)
     def _init_replacement(
         self,
@@ -861,6 +870,7 @@ class TypeQualifier(TypeQualifierBase, metaclass=_TypeQualifier):
 
         if value is None or is_primitive(value) and value._is_uninitialized():
             return intr_op._IntrinsicDeclaration(self, None)
+        self._check_initial_value(value)
         return intr_op._IntrinsicDeclaration(self, value)
 
     @_intrinsic_replacement(__bool__)
@@ -1385,6 +1395,7 @@ class Signal(TypeQualifier):
 
         if value is None or is_primitive(value) and value._is_uninitialized():
             return intr_op._IntrinsicDeclaration(self, None, delayed_init)
+        self._check_initial_value(value)
         return intr_op._IntrinsicDeclaration(self, value, delayed_init)
 
     #
